@@ -155,7 +155,9 @@ var (
 // c12Session runs one RPC of the real session handler against the renter function over an
 // in-memory connection and reports whether the handler panicked.
 func c12Session(t *testing.T, sh *SessionHandler, sess *session, renter func(rt *rhp2.Transport)) (panicMsg string) {
-	hostConn, renterConn := net.Pipe()
+	// a real loopback connection: the handlers may answer before they have read the whole
+	// request, which needs the kernel's buffering (net.Pipe would block both sides)
+	hostConn, renterConn := c12ConnPair(t)
 	done := make(chan struct{})
 	go func() {
 		defer close(done)
@@ -183,6 +185,37 @@ func c12Session(t *testing.T, sh *SessionHandler, sess *session, renter func(rt 
 	}()
 	<-done
 	return
+}
+
+var c12Listener net.Listener
+
+func c12ConnPair(t *testing.T) (hostConn, renterConn net.Conn) {
+	if c12Listener == nil {
+		l, err := net.Listen("tcp", "127.0.0.1:0")
+		if err != nil {
+			t.Fatal(err)
+		}
+		c12Listener = l
+		t.Cleanup(func() { l.Close(); c12Listener = nil })
+	}
+	ch := make(chan net.Conn, 1)
+	go func() {
+		c, err := net.Dial("tcp", c12Listener.Addr().String())
+		if err != nil {
+			ch <- nil
+			return
+		}
+		ch <- c
+	}()
+	hostConn, err := c12Listener.Accept()
+	if err != nil {
+		t.Fatal(err)
+	}
+	renterConn = <-ch
+	if renterConn == nil {
+		t.Fatal("dial failed")
+	}
+	return hostConn, renterConn
 }
 
 func c12RevisionSig(key types.PrivateKey, rev types.FileContractRevision) types.TransactionSignature {
